@@ -11,6 +11,7 @@ CONSTANTS
   WholeOnly = TRUE
   Sizes = {1}
   FixCommonSnapshot = TRUE
+  Dev_StalePathReuse = FALSE
 INVARIANT Inv
 INVARIANT HistoryTreeIsRestriction
 PROPERTY AppendImpliesPrefix
